@@ -445,8 +445,17 @@ def comparators(ck, rule):
     ap = p.find_class("AlignedPair")
     swaps = [("reference", "query"), ("Reference", "Query")]
 
-    def ret(cls, name):
+    def ret(cls, name, _depth=0):
         m = p.lookup_method(cls, name, None)
+        if m is not None and m.cls is not cls and cls.name != "AlignedPair" and _depth == 0:
+            # inherited: a base-class method that only delegates to another comparator of the object is that comparator of THIS class
+            body = [st for st in m.node.body if not (isinstance(st, ast.Expr) and isinstance(st.value, ast.Constant))]
+            if len(body) == 1 and isinstance(body[0], ast.Return) and isinstance(body[0].value, ast.Call) \
+                    and isinstance(body[0].value.func, ast.Attribute) and isinstance(body[0].value.func.value, ast.Name) \
+                    and body[0].value.func.value.id == m.self_name and body[0].value.func.attr in cls.methods \
+                    and len(body[0].value.args) == 1 and not body[0].value.keywords:
+                m2, v2, other2, pa2 = ret(cls, body[0].value.func.attr, 1)
+                return m, v2, other2, pa2
         if m is None or m.cls is not cls and cls.name != "AlignedPair":
             m = cls.methods.get(name)
         if m is None:
@@ -486,7 +495,8 @@ def comparators(ck, rule):
                      found=T.show(v)[:160], required=T.show(want)[:160])
     q, r = p.find_class("NotAlignedQueryPosition"), p.find_class("NotAlignedReferencePosition")
     for name in ("lessOnBothSequences", "lessOrEqualOnAnySequence"):
-        semantic_symmetry(ck, rule, r.methods[name], q.methods[name], swaps, f"unpaired-label comparator {name}")
+        if name in r.methods and name in q.methods:          # (an inherited, delegating comparator was judged above)
+            semantic_symmetry(ck, rule, r.methods[name], q.methods[name], swaps, f"unpaired-label comparator {name}")
     # the null pair
     nul = p.find_class("_NullAlignedPair")
     for name in ("lessOnBothSequences", "lessOrEqualOnAnySequence"):
